@@ -771,7 +771,7 @@ Proof.
   assert (K : is_ok (undelegate tree_r1 demo_cfg 0 [(0, 100)] (slashed_pool tree_r1)) = true) by (vm_compute; reflexivity).
   destruct (undelegate tree_r1 demo_cfg 0 [(0, 100)] (slashed_pool tree_r1)) as [s'| |] eqn:E; try discriminate K. clear K.
   exists s'. split; [|split; [reflexivity|split]].
-  - apply share_supply_eq_book. intro d. reflexivity.
+  - unfold slashed_pool. apply share_supply_eq_book. intro d. reflexivity.
   - intro P. specialize (P 0 100 (or_introl eq_refl)). vm_compute in P. apply P. reflexivity.
   - apply undelegate_fields in E. destruct E as (pc & R & _ & _ & ->). vm_compute in R. inversion R; subst pc.
     vm_compute. repeat split.
